@@ -485,10 +485,49 @@ func buildOverlay(work string) string {
 	}
 	// in-package helper files: harness/inpkg/<pkg path>/*.go -> /repo/<pkg path>/
 	add(filepath.Join(verif, "harness", "inpkg"), repo)
+	patchBadgerClock(gen, ov.Replace)
 	j, _ := json.MarshalIndent(ov, "", " ")
 	p := filepath.Join(work, "overlay.json")
 	os.WriteFile(p, j, 0644)
 	return p
+}
+
+// patchBadgerClock puts the two places where the badger library reads the wall clock for record
+// expiry (Entry.WithTTL and isDeletedOrExpired) behind a variable that the harness points at the
+// virtual clock: nonce records carry a TTL, and the expiry must happen in the same (virtual) time
+// the driver's freshness window is measured in. The library itself stays untouched (overlay).
+func patchBadgerClock(gen string, replace map[string]string) {
+	cmd := exec.Command("go", "list", "-m", "-f", "{{.Dir}}", "github.com/dgraph-io/badger/v2")
+	cmd.Dir = repo
+	cmd.Env = goEnv()
+	out, err := cmd.Output()
+	dir := strings.TrimSpace(string(out))
+	if err != nil || dir == "" {
+		infra("cannot locate the badger module: %v", err)
+	}
+	sites := map[string]string{
+		"iterator.go": "return expiresAt <= uint64(time.Now().Unix())",
+		"structs.go":  "e.ExpiresAt = uint64(time.Now().Add(dur).Unix())",
+	}
+	for f, line := range sites {
+		b, err := os.ReadFile(filepath.Join(dir, f))
+		if err != nil {
+			infra("%v", err)
+		}
+		src := string(b)
+		if strings.Count(src, line) != 1 {
+			infra("badger %s: expiry clock site not found (library version changed?)", f)
+		}
+		src = strings.Replace(src, line, strings.Replace(line, "time.Now()", "VerifNow()", 1), 1)
+		src += "\nvar _ = time.Now\n"
+		if f == "structs.go" {
+			// (declared in a replaced file: files added to a module-cache package are not seen)
+			src += "\n// VerifNow is the clock record expiry is measured with (verification overlay only).\nvar VerifNow = time.Now\n"
+		}
+		dst := filepath.Join(gen, "badger_"+f)
+		os.WriteFile(dst, []byte(src), 0644)
+		replace[filepath.Join(dir, f)] = dst
+	}
 }
 
 func buildWorkerRace(overlay, out string, cleanup func()) {
